@@ -34,6 +34,11 @@ impl Display for TransactionError {
         match self {
             Self::Aborted(id) => write!(f, "Transaction {} aborted", id),
 
+            Self::UniqueKeyTaken(txid, index) if *index == TransactionCoordinator::CATALOG_NAMES => write!(
+                f,
+                "UNIQUE constraint violated: transaction {} and a transaction that committed meanwhile created a relation of the same name",
+                txid
+            ),
             Self::UniqueKeyTaken(txid, index) => write!(
                 f,
                 "UNIQUE constraint violated: transaction {} and a transaction that committed meanwhile inserted the same key into index {}",
@@ -518,6 +523,10 @@ impl TransactionCoordinator {
     /// Write-set entries that stand for a key of a unique index (object = the index, row = hash of
     /// the key) carry this tag instead of a tuple version.
     pub const KEY_ENTRY: u8 = u8::MAX;
+
+    /// The object under which the names of the relations a transaction creates are entered as keys
+    /// (no relation ever gets this id).
+    pub const CATALOG_NAMES: ObjectId = ObjectId::MAX;
 
     fn is_key_entry(&self, txid: TransactionId, id: LogicalId) -> bool {
         self.transactions
